@@ -3,9 +3,10 @@ import random
 from common import *
 import expr as X
 import evalcheck
+import dictrep
 
 PROP = "C02"
-PROP_FILES = ["Properties/C02.v", "Check/EvalCheck.v"]
+PROP_FILES = ["Properties/C02.v", "Check/EvalCheck.v", "Check/DictCheck.v"]
 N = X.num
 
 
@@ -280,4 +281,7 @@ def main(tier, seed, replay=None):
                     % (len(families()), nrep) + ("; thorough = every ordered pair inside every family x {=, set count, dict call}" if tier == "thorough" else ""),
                     {"context_histogram": fams, "repr_comparisons": nrep, "text_family_cases": nraw, "exhaustive": False})
     run.assumptions = ["functions are outside the data fragment", "numbers integer/half-integer < 2^53"]
+    if not replay or json.load(open(replay)).get("case", {}).get("stream") == "dictrep":
+        only = [json.load(open(replay))["case"]["label"]] if replay else None
+        run.cov["dictionary_representation_histories"] = dictrep.run_stream(run, vh, random.Random(seed * 7919 + 13), tier, only=only)
     return run.finish(proof)
